@@ -264,7 +264,8 @@ theorem firstSome_trafEdited {α : Type} (g : TBox → Option α) (hg : Stable g
     · rw [firstSome_insertPiffs g hg.piff, firstSome_trafTimed g hg.tfdt]
     · rw [firstSome_trafTimed g hg.tfdt]
 
-theorem firstSome_setSaio1 {α : Type} (g : TBox → Option α) (hg : Stable g) (p : Nat)
+theorem firstSome_setSaio1 {α : Type} (g : TBox → Option α)
+    (hg : ∀ v a o1 o2, g (.saio v a o1) = g (.saio v a o2)) (p : Nat)
     (t : List TBox) : firstSome g (modFirst (fSetSaio1 p) t) = firstSome g t := by
   apply firstSome_modFirst
   intro x y h
@@ -272,11 +273,12 @@ theorem firstSome_setSaio1 {α : Type} (g : TBox → Option α) (hg : Stable g) 
   | saio v a l =>
     rcases l with _ | ⟨z, _ | ⟨z2, l2⟩⟩ <;> simp [fSetSaio1] at h <;> subst h
     · rfl
-    · exact hg.saio ..
+    · exact hg ..
     · rfl
   | _ => simp [fSetSaio1] at h
 
-theorem firstSome_postSaio {α : Type} (g : TBox → Option α) (hg : Stable g) (w : Nat) (hs bug : Bool)
+theorem firstSome_postSaio {α : Type} (g : TBox → Option α)
+    (hg : ∀ v a o1 o2, g (.saio v a o1) = g (.saio v a o2)) (w : Nat) (hs bug : Bool)
     (t : List TBox) : firstSome g (modFirst (fPostSaio w hs bug) t) = firstSome g t := by
   apply firstSome_modFirst
   intro x y h
@@ -284,7 +286,7 @@ theorem firstSome_postSaio {α : Type} (g : TBox → Option α) (hg : Stable g) 
   | saio v a l =>
     rcases l with _ | ⟨z, _ | ⟨z2, l2⟩⟩ <;> simp [fPostSaio] at h <;> subst h
     · rfl
-    · exact hg.saio ..
+    · exact hg ..
     · rfl
   | _ => simp [fPostSaio] at h
 
@@ -578,14 +580,41 @@ theorem count_zero_none (q : TBox → Bool) (t : List TBox) (h : count q t = 0) 
 def late (c : Prop) [Decidable c] (p w b m : Nat) (hs bug : Bool) (t : List TBox) : List TBox :=
   modFirst (fPostTrun b m) (modFirst (fPostSaio w hs bug) (if c then modFirst (fSetSaio1 p) t else t))
 
-theorem firstSome_late {α : Type} (g : TBox → Option α) (hg : Stable g) (c : Prop) [Decidable c]
-    (p w b m : Nat) (hs bug : Bool) (t : List TBox) :
+/-- the late stages only touch the saio offsets and the trun data offset -/
+theorem firstSome_late' {α : Type} (g : TBox → Option α)
+    (hsaio : ∀ v a o1 o2, g (.saio v a o1) = g (.saio v a o2))
+    (htrun : ∀ d f p s x1 x2, g (.trun d f p s x1) = g (.trun d f p s x2))
+    (c : Prop) [Decidable c] (p w b m : Nat) (hs bug : Bool) (t : List TBox) :
     firstSome g (late c p w b m hs bug t) = firstSome g t := by
   unfold late
-  rw [firstSome_postTrun g (fun d f p s x1 x2 => hg.trun d d f p s x1 x2), firstSome_postSaio g hg]
+  rw [firstSome_postTrun g htrun, firstSome_postSaio g hsaio]
   split
-  · exact firstSome_setSaio1 g hg p t
+  · exact firstSome_setSaio1 g hsaio p t
   · rfl
+
+theorem firstSome_late {α : Type} (g : TBox → Option α) (hg : Stable g) (c : Prop) [Decidable c]
+    (p w b m : Nat) (hs bug : Bool) (t : List TBox) :
+    firstSome g (late c p w b m hs bug t) = firstSome g t :=
+  firstSome_late' g hg.saio (fun d f p s x1 x2 => hg.trun d d f p s x1 x2) c p w b m hs bug t
+
+theorem trunDop_trafEdited (o : Opts) (t : List TBox) (h : t.any isTrun = true) :
+    trunDop (trafEdited o t) = true := by
+  have h2 : (if o.encrypted then insertPiffs o.piffs (trafTimed o t) else trafTimed o t).any isTrun
+      = true := by
+    rw [any_eq_firstSome]
+    split
+    · rw [firstSome_insertPiffs _ stable_isTrun.piff, firstSome_trafTimed _ stable_isTrun.tfdt,
+        ← any_eq_firstSome]
+      exact h
+    · rw [firstSome_trafTimed _ stable_isTrun.tfdt, ← any_eq_firstSome]
+      exact h
+  unfold trafEdited
+  simp only
+  split
+  · unfold trunDop
+    rw [firstSome_resetSaio _ (by intros; rfl)]
+    exact trunDop_forceDop _ h2
+  · exact trunDop_forceDop _ h2
 
 theorem tboxes_late (c : Prop) [Decidable c] (p w b m : Nat) (hs bug : Bool) (t : List TBox) :
     tboxes (late c p w b m hs bug t) = tboxes t := by
@@ -654,5 +683,233 @@ theorem shape_nopiff (s : Seg) (h : shapeOk s = true) : PiffsFrom (firstSenc s.t
   have := count_zero_none isPiff s.traf h.1.2 _ hm
   simp [isPiff] at this
 
+
+/-! ### names for the intermediate values of `rewrite` -/
+
+def ePre (o : Opts) (s : Seg) : List (String × Nat) :=
+  opqs (eraseSidx s.pre ++ o.newEmsg.map (fun n => (⟨"emsg", n⟩ : Opq)))
+def eMoofPos (o : Opts) (s : Seg) : Nat := tellAfter 0 (ePre o s)
+def eTrafPos (o : Opts) (s : Seg) : Nat := tellAfter (eMoofPos o s + 8) (opqs s.moofPre)
+def eT (o : Opts) (s : Seg) : List TBox := trafEdited o s.traf
+def eTrafEnd (o : Opts) (s : Seg) : Nat := tellAfter (eTrafPos o s + 8) (tboxes (eT o s))
+def eMoofEnd (o : Opts) (s : Seg) : Nat := tellAfter (eTrafEnd o s) (opqs s.moofPost)
+def eWant (o : Opts) (s : Seg) : Nat :=
+  eTrafPos o s + 8 + offsetOf isSenc (eT o s) + sencRel (eT o s) - eMoofPos o s
+def eMdatStart (o : Opts) (s : Seg) : Nat :=
+  eMoofPos o s + (eMoofEnd o s - eMoofPos o s) + s.mdatHdr
+
+theorem rewrite_traf_eq (o : Opts) (s : Seg) : ∃ p,
+    (rewrite o s).traf = late (saioReset o s.traf = true) p (eWant o s) (eMoofPos o s)
+      (eMdatStart o s) (hasSenc (eT o s)) o.bugSaio (eT o s) := ⟨_, rfl⟩
+
+theorem rewrite_base (o : Opts) (s : Seg) : (rewrite o s).base = eMoofPos o s := rfl
+theorem rewrite_moofPos (o : Opts) (s : Seg) : (rewrite o s).moofPos = eMoofPos o s := rfl
+theorem rewrite_trafPos (o : Opts) (s : Seg) : (rewrite o s).trafPos = eTrafPos o s := rfl
+theorem rewrite_payloadStart (o : Opts) (s : Seg) :
+    (rewrite o s).payloadStart = eMoofEnd o s + s.mdatHdr := rfl
+theorem rewrite_mdatPos (o : Opts) (s : Seg) : (rewrite o s).mdatPos = eMoofEnd o s := rfl
+theorem rewrite_mdatSize (o : Opts) (s : Seg) :
+    (rewrite o s).mdatSize = s.mdatHdr + s.payload.length := rfl
+theorem rewrite_moofSize (o : Opts) (s : Seg) :
+    (rewrite o s).moofSize = eMoofEnd o s - eMoofPos o s := rfl
+theorem rewrite_trafKids (o : Opts) (s : Seg) :
+    (rewrite o s).trafKids = place (eTrafPos o s + 8) (tboxes (rewrite o s).traf) := rfl
+
+theorem eMoofPos_le_trafPos (o : Opts) (s : Seg) : eMoofPos o s + 8 ≤ eTrafPos o s :=
+  tellAfter_ge _ _
+theorem eTrafPos_le_end (o : Opts) (s : Seg) : eTrafPos o s + 8 ≤ eTrafEnd o s :=
+  tellAfter_ge _ _
+theorem eTrafEnd_le_moofEnd (o : Opts) (s : Seg) : eTrafEnd o s ≤ eMoofEnd o s :=
+  tellAfter_ge _ _
+
+theorem eMdatStart_eq (o : Opts) (s : Seg) : eMdatStart o s = eMoofEnd o s + s.mdatHdr := by
+  have h1 := eMoofPos_le_trafPos o s
+  have h2 := eTrafPos_le_end o s
+  have h3 := eTrafEnd_le_moofEnd o s
+  unfold eMdatStart
+  omega
+
+
+/-! ### PIFF clones through all stages -/
+
+theorem sencEntries_firstSenc (t : List TBox) : sencEntries t = (firstSenc t).map (·.2) := by
+  unfold sencEntries firstSenc
+  induction t with
+  | nil => rfl
+  | cons x r ih => cases x <;> simp [firstSome, gSencEntries, gSenc, ih]
+
+theorem piffs_trafEdited (o : Opts) (t : List TBox) (h : PiffsFrom (firstSenc t) t) :
+    PiffsFrom (firstSenc t) (trafEdited o t) := by
+  have hT : PiffsFrom (firstSenc t) (trafTimed o t) := by
+    unfold trafTimed setTfdt
+    apply piffs_modFirst
+    · intro x y hf
+      cases x <;> simp [fSetTfdt] at hf
+      subst hf; rfl
+    · split
+      · exact h
+      · apply piffs_insertAt
+        · intro o' e' hb; cases hb
+        · exact h
+  have h2 : PiffsFrom (firstSenc t)
+      (if o.encrypted then insertPiffs o.piffs (trafTimed o t) else trafTimed o t) := by
+    split
+    · apply piffs_insertPiffs
+      · unfold firstSenc
+        exact firstSome_trafTimed gSenc stable_gSenc.tfdt o t
+      · exact hT
+    · exact hT
+  have h3 : PiffsFrom (firstSenc t)
+      (forceDop (if o.encrypted then insertPiffs o.piffs (trafTimed o t) else trafTimed o t)) := by
+    apply piffs_modFirst _ _ _ _ h2
+    intro x y hf
+    cases x <;> simp [fForceDop] at hf
+    subst hf; rfl
+  unfold trafEdited
+  simp only
+  split
+  · apply piffs_modFirst _ _ _ _ h3
+    intro x y hf
+    cases x <;> simp [fResetSaio] at hf
+    subst hf; rfl
+  · exact h3
+
+theorem piffs_late (se : Option (Bool × List Nat)) (c : Prop) [Decidable c] (p w b m : Nat)
+    (hs bug : Bool) (t : List TBox) (h : PiffsFrom se t) :
+    PiffsFrom se (late c p w b m hs bug t) := by
+  unfold late
+  apply piffs_modFirst
+  · intro x y hf
+    cases x <;> simp [fPostTrun] at hf
+    subst hf; rfl
+  apply piffs_modFirst
+  · intro x y hf
+    cases x with
+    | saio v a l =>
+      rcases l with _ | ⟨z, _ | ⟨z2, l2⟩⟩ <;> simp [fPostSaio] at hf <;> subst hf <;> rfl
+    | _ => simp [fPostSaio] at hf
+  split
+  · apply piffs_modFirst _ _ _ _ h
+    intro x y hf
+    cases x with
+    | saio v a l =>
+      rcases l with _ | ⟨z, _ | ⟨z2, l2⟩⟩ <;> simp [fSetSaio1] at hf <;> subst hf <;> rfl
+    | _ => simp [fSetSaio1] at hf
+  · exact h
+
+
+/-! ### `bugs=saio` touches nothing but the saio offsets -/
+
+/-- forget the saio offsets -/
+def eraseSaio : TBox → TBox
+  | .saio v a _ => .saio v a []
+  | x => x
+
+theorem map_modFirst_erase (e : TBox → TBox) (f : TBox → Option TBox)
+    (h : ∀ x y, f x = some y → e y = e x) (t : List TBox) :
+    (modFirst f t).map e = t.map e := by
+  induction t with
+  | nil => rfl
+  | cons x r ih =>
+    simp only [modFirst]
+    cases hf : f x with
+    | none => simp only [List.map_cons, ih]
+    | some y => simp only [List.map_cons, h x y hf]
+
+theorem map_modFirst_comm (e : TBox → TBox) (f : TBox → Option TBox)
+    (h : ∀ x, f (e x) = (f x).map e) (t : List TBox) :
+    (modFirst f t).map e = modFirst f (t.map e) := by
+  induction t with
+  | nil => rfl
+  | cons x r ih =>
+    simp only [modFirst, List.map_cons]
+    rw [h x]
+    cases hf : f x with
+    | none => simp only [Option.map_none, List.map_cons, ih]
+    | some y => simp only [Option.map_some, List.map_cons]
+
+theorem late_erase (c : Prop) [Decidable c] (p w b m : Nat) (hs bug : Bool) (t : List TBox) :
+    (late c p w b m hs bug t).map eraseSaio = modFirst (fPostTrun b m) (t.map eraseSaio) := by
+  unfold late
+  rw [map_modFirst_comm]
+  · congr 1
+    rw [map_modFirst_erase]
+    · split
+      · apply map_modFirst_erase
+        intro x y h
+        cases x with
+        | saio v a l =>
+          rcases l with _ | ⟨z, _ | ⟨z2, l2⟩⟩ <;> simp [fSetSaio1] at h <;> subst h <;> rfl
+        | _ => simp [fSetSaio1] at h
+      · rfl
+    · intro x y h
+      cases x with
+      | saio v a l =>
+        rcases l with _ | ⟨z, _ | ⟨z2, l2⟩⟩ <;> simp [fPostSaio] at h <;> subst h <;> rfl
+      | _ => simp [fPostSaio] at h
+  · intro x
+    cases x <;> rfl
+
+/-! ### the in-place rewrites of pass 2 -/
+
+theorem any_saio_of_changed (w : Nat) (hs bug : Bool) (t : List TBox)
+    (h : saioOffsets (modFirst (fPostSaio w hs bug) t) ≠ saioOffsets t) : t.any isSaio = true := by
+  cases hany : t.any isSaio with
+  | true => rfl
+  | false =>
+    rw [postSaio_noop w hs bug t hany] at h
+    exact absurd rfl h
+
+theorem mem_ite_singleton {α : Type} (c : Prop) [Decidable c] (x p : α)
+    (h : p ∈ (if c then [x] else [])) : c ∧ p = x := by
+  split at h
+  · exact ⟨‹c›, by simpa using h⟩
+  · simp at h
+
+theorem rewrite_patches_eq (o : Opts) (s : Seg) : ∃ p1 : Nat,
+    (rewrite o s).patches =
+      (if trunOffset (rewrite o s).traf ≠ trunOffset (eT o s)
+        then [(eTrafPos o s + 8 + offsetOf isTrun (eT o s) + 12, 8 + b2n (trunFsf (eT o s)) 4)] else []) ++
+      (if saioOffsets (modFirst (fPostSaio (eWant o s) (hasSenc (eT o s)) o.bugSaio)
+            (if saioReset o s.traf = true then modFirst (fSetSaio1 p1) (eT o s) else eT o s)) ≠
+          saioOffsets (if saioReset o s.traf = true then modFirst (fSetSaio1 p1) (eT o s) else eT o s)
+        then [(eTrafPos o s + 8 + offsetOf isSaio (eT o s), (firstSome gSaioSize (eT o s)).getD 0)] else []) :=
+  ⟨_, rfl⟩
+
+theorem rewrite_patches_cases (o : Opts) (s : Seg) (p : Nat × Nat)
+    (h : p ∈ (rewrite o s).patches) :
+    p = (eTrafPos o s + 8 + offsetOf isTrun (eT o s) + 12, 8 + b2n (trunFsf (eT o s)) 4) ∨
+    (p = (eTrafPos o s + 8 + offsetOf isSaio (eT o s), (firstSome gSaioSize (eT o s)).getD 0) ∧
+      (eT o s).any isSaio = true) := by
+  obtain ⟨p1, hp⟩ := rewrite_patches_eq o s
+  rw [hp, List.mem_append] at h
+  cases h with
+  | inl h => exact Or.inl (mem_ite_singleton _ _ _ h).2
+  | inr h =>
+    obtain ⟨hne, hp'⟩ := mem_ite_singleton _ _ _ h
+    refine Or.inr ⟨hp', ?_⟩
+    have := any_saio_of_changed _ _ _ _ hne
+    split at this
+    · rw [any_modFirst isSaio _ (fun x y h => (fSetSaio1_keeps _ x y h).2.2.2.2)] at this
+      exact this
+    · exact this
+
+
+/-! ### a concrete instance (used by the non-vacuity examples of `Props/C03.lean`) -/
+
+/-- a stored encrypted segment indexed from its styp: sidx in front of the moof, no
+tfdt, explicit base, trun without data_offset field, a saio offset pointing nowhere -/
+def exSeg : Seg :=
+  { pre := [⟨"styp", 24⟩, ⟨"sidx", 44⟩], moofPre := [⟨"mfhd", 16⟩],
+    traf := [.tfhd true 1, .other "saiz" 17, .saio 0 false [999], .senc false [16, 16, 16],
+             .trun false true 2 [10, 20, 30] 7],
+    moofPost := [], mdatHdr := 8, payload := List.replicate 60 0, post := [⟨"styp", 24⟩] }
+
+/-- a request in the far future (64-bit tfdt), one emsg box, one PIFF clone -/
+def exOpts (bug : Bool) : Opts :=
+  { newTime := 2 ^ 32 + 5, newEmsg := [50], encrypted := true, piffs := 1, bugSaio := bug }
+
+/-- outside `shapeOk`: a traf without trun -/
+def exNoTrun : Seg := { exSeg with traf := [.tfhd false 0] }
 
 end DashLive.SegmentRewrite
